@@ -183,7 +183,8 @@ def run_traffic(sc):
             if out:
                 srv.do_actions([('segs', out, 0)])
             if state['sent_bytes'] >= fault['offset']:
-                state['closed_at'] = time.time()
+                if state['closed_at'] is None:
+                    state['closed_at'] = time.time()
                 srv.close()
                 return
             return
